@@ -45,6 +45,8 @@ def gen(rng, tier):
     for k in range(npart + 1):
         b = ft(box * k / npart)
         pool += [float(b), float(np.nextafter(b, ft(0))), float(np.nextafter(b, ft(2 * box)))]
+        # clearly on one side of the edge for the position dtype, but closer than a coarser float type resolves
+        pool += [float(ft(float(b) * (1 + s_ * e_))) for s_ in (-1, 1) for e_ in (1e-9, 1e-7, 3e-6)]
     pool = [v for v in pool if 0.0 <= v <= box]
     pos = []
     for _ in range(N):
